@@ -59,6 +59,7 @@ var (
 	idsMsg      = l(40, 41, 42, 43)          // message, flags 0..3, default arrays
 	idsMsgCaps  = l(44, 45, 46)              // message caps (1,1) (0,0) (2,2)
 	tplMsgHdr   = l(1, 2, 3, 4, 5, 6, 7, 8, 9, 10, 12)
+	tplBoundary = l(28, 29, 30, 31, 32, 33, 34, 35, 36)
 )
 
 func checkDefs() map[string]CheckDef {
@@ -70,10 +71,14 @@ func checkDefs() map[string]CheckDef {
 	add("C01",
 		cat(each("H_resume", idsMsg, tplMsgHdr, l(4), l(-1)),
 			each("H_resume", idsMsgCaps, l(3, 11, 12), l(3), l(-1)),
+			each("H_resume", l(40, 41), tplBoundary, l(3), l(-1)),
+			each("H_resume", l(45), l(32, 34, 35), l(3), l(-1)),
+			each("H_resume", l(40, 41), l(37, 38, 39), l(2), l(-1)),
 			each("H_resume", l(40, 44, 45), l(13), l(6), l(-1)),
 			each("H_resume", l(40, 45), l(14), l(5), l(-1)),
 			each("H_chain", l(40, 41), l(13), l(4, 5))),
 		cat(each("H_resume", idsMsg, tplMsgHdr, l(6), l(-1)),
+			each("H_resume", l(40, 41, 44, 45), tplBoundary, l(5), l(-1)),
 			each("H_resume", idsMsgCaps, l(3, 4, 11, 12), l(5), l(-1)),
 			each("H_resume", l(40, 44, 45, 46), l(13), l(8), l(-1)),
 			each("H_chain", l(40, 41, 44), l(13), l(6, 7)), each("H_chain", l(40), l(9), l(3)),
@@ -93,7 +98,8 @@ func checkDefs() map[string]CheckDef {
 			each("H_resume", l(5), l(26, 27), l(4), l(-1)),
 			each("H_resume_at", l(0, 2, 6, 11, 23, 30), l(6), l(1, 2)),
 			each("H_chain", l(0, 1, 2, 6, 8, 11, 23, 30, 34), l(0), l(5)),
-			each("H_resume", l(8, 16, 19), l(18, 19), l(4), l(-1))),
+			each("H_resume", l(8, 16, 19), l(18, 19), l(4), l(-1)),
+			each("H_resume", l(12, 14), l(40, 41, 42, 43), l(2), l(-1))),
 		cat(each("H_resume", idsLoop, l(0), l(12), l(-1)),
 			each("H_resume", idsNameAddr, l(0), l(9), l(-1)),
 			each("H_resume", idsHdrLine, l(0), l(9), l(-1)),
@@ -117,7 +123,9 @@ func checkDefs() map[string]CheckDef {
 			each("H_premature", l(5), l(23, 24, 25, 26), l(5)),
 			each("H_premature", l(5), l(0), l(15)),
 			each("H_premature", l(41, 42, 43), tplMsgHdr, l(4)),
-			each("H_premature", l(41, 43), l(13), l(7))),
+			each("H_premature", l(41, 43), l(13), l(7)),
+			each("H_premature", l(41), tplBoundary, l(4)),
+			each("H_premature", l(41), l(37, 38, 39), l(2)), each("H_premature", l(12), l(40, 41, 42, 43), l(2))),
 		cat(each("H_premature", idsLoop, l(0), l(13)),
 			each("H_premature", idsNameAddr, l(0), l(10)),
 			each("H_premature", idsHdrLine, l(0), l(10)),
@@ -135,6 +143,7 @@ func checkDefs() map[string]CheckDef {
 			each("H_C04_parse", l(40, 43, 45), l(8)),
 			each("H_C04_msg", l(1, 3, 4, 9, 11), l(3), l(-1, 0, 1), l(-1, 0, 1)),
 			each("H_C04_msg", l(13), l(5), l(-1, 0), l(-1, 0)),
+			each("H_C04_msg", tplBoundary, l(3), l(-1, 0), l(0)),
 			each("H_C04_msg", l(0), l(10), l(-1), l(-1)),
 			each("H_C04_lookup", seq(0, 6)), each("H_C04_lookup", l(9, 12, 14, 19, 20)),
 			each("H_C04_enums"),
@@ -153,7 +162,9 @@ func checkDefs() map[string]CheckDef {
 	add("C05",
 		cat(each("H_C05", l(1, 2, 3, 4, 5, 6, 7, 8, 9, 10, 11, 12), l(4), l(0)),
 			each("H_C05", l(13), l(7), l(0, 1)),
-			each("H_C05", l(14, 16), l(5), l(0))),
+			each("H_C05", l(14, 16), l(5), l(0)),
+			each("H_C05", tplBoundary, l(4), l(0)),
+			each("H_C05_chunk", l(1, 3, 5, 11, 12, 29, 32, 34, 35), l(3))),
 		cat(each("H_C05", l(1, 2, 3, 4, 5, 6, 7, 8, 9, 10, 11, 12), l(6), l(0, 1, 2)),
 			each("H_C05", l(13), l(9), l(0))),
 		"ParseSIPMsg one-shot on templates with a symbolic window of 4 (6) bytes in each header kind, repeated Contact headers (template 11), three-header message (12), fully symbolic 7 (9)-byte header block: containment, first-line order, header order / own-line / trimming, nesting of From/To/CSeq/Call-ID/Contact/PAI sub-fields, body and raw-message extents",
@@ -201,8 +212,11 @@ func checkDefs() map[string]CheckDef {
 	add("C11",
 		cat(each("H_offset", l(0, 1, 2, 3, 6, 8, 11, 12, 13, 16, 19, 22, 23, 25, 30, 34), l(0), l(5), l(1, 3, 255, 256, 65530)),
 			each("H_offset", l(5), l(24, 25), l(4), l(1, 256, 65500)),
+			each("H_offset", l(5), l(0), l(8, 10, 13, 14), l(1, 5, 14, 300)),
+			each("H_offset", l(40, 43), l(0), l(9, 12), l(2, 14, 256)),
 			each("H_offset", l(40, 41), l(1, 3, 5, 9), l(3), l(1, 255, 256, 65480)),
-			each("H_offset", l(40, 42), l(7, 21, 22), l(2), l(1, 3, 256))),
+			each("H_offset", l(40, 42), l(7, 21, 22), l(2), l(1, 3, 256)),
+			each("H_offset", l(41), tplBoundary, l(3), l(2, 256))),
 		cat(each("H_offset", l(0, 1, 2, 3, 6, 8, 11, 12, 13, 16, 19, 22, 23, 25, 30, 34), l(0), l(7), l(2, 257, 4096, 65528)),
 			each("H_offset", l(40, 41), l(1, 3, 5, 9), l(5), l(7, 257, 65478))),
 		"same text at offset k vs. offset 0 for the message parser and every stand-alone parser: contents fully symbolic (5/7 bytes or template windows), the two bytes before the text symbolic, k in {1,3,255,256,257,4096, 65535-len-..} (8/16-bit boundaries and the addressing limit)",
@@ -224,6 +238,7 @@ func checkDefs() map[string]CheckDef {
 	add("C13",
 		cat(each("H_C13_msg", l(1, 3, 4, 9, 11, 12), l(3), l(0, 1, -1), l(0, 1, -1), l(0)),
 			each("H_C13_msg", l(3, 11, 12), l(3), l(0, 1), l(0, 1), l(1)),
+			each("H_C13_msg", l(32, 34, 35), l(3), l(0, 1), l(0, 1), l(0, 1)),
 			each("H_C13_msg", l(16), l(4), l(0, 1, 2), l(0, 1), l(0)),
 			each("H_C13_params", l(6), l(0, 1, 2)), each("H_C13_hdrs", l(6), l(0, 1, 2))),
 		cat(each("H_C13_msg", l(1, 3, 4, 9, 11, 12), l(5), l(0, 1, 2), l(0, 1, 2), l(0)),
